@@ -344,10 +344,19 @@ func (r *real) subscribe(o Op) string {
 			nSeed = len(r.coll.List())
 		}
 		ch := r.coll.Pull(ctx, rs...)
+		sb.holdCh, sb.resumeCh = make(chan struct{}), make(chan struct{})
 		go func() {
 			defer close(sb.done)
-			for e := range ch {
-				sb.push(showCEvent(e))
+			for {
+				select {
+				case e, ok := <-ch:
+					if !ok {
+						return
+					}
+					sb.push(showCEvent(e))
+				case <-sb.holdCh:
+					<-sb.resumeCh
+				}
 			}
 		}()
 	}
@@ -461,13 +470,31 @@ func newReal(cfg Cfg, probe bool) *real {
 		opts = append(opts, resource.WithIDInterceptor(namedIcpt(cfg.Icpt)))
 	}
 	if cfg.Eqv != "" {
-		r.cmp = &cmpLog{ch: make(chan bool, 1024)}
-		f := namedEqv(cfg.Eqv)
-		opts = append(opts, resource.WithEquivalence(resource.ComparerFunc(func(x, y proto.Message) bool {
-			b := f(x, y)
-			r.cmp.ch <- b
-			return b
-		})))
+		// the equivalence options in the order listed; only the decisions of the comparer that is in force
+		// by the documented rule (the last option) are recorded - a comparer that should have been replaced
+		// or cleared is an ordinary comparer
+		eff := effEqv(cfg.Eqv)
+		if eff != "" {
+			r.cmp = &cmpLog{ch: make(chan bool, 1024)}
+		}
+		toks := strings.Split(cfg.Eqv, ",")
+		for i, tok := range toks {
+			if tok == "nil" {
+				opts = append(opts, resource.WithEquivalence(nil))
+				continue
+			}
+			f := namedEqv(tok)
+			if i == len(toks)-1 {
+				log := r.cmp
+				opts = append(opts, resource.WithEquivalence(resource.ComparerFunc(func(x, y proto.Message) bool {
+					b := f(x, y)
+					log.ch <- b
+					return b
+				})))
+			} else {
+				opts = append(opts, resource.WithEquivalence(resource.ComparerFunc(f)))
+			}
+		}
 	}
 	if cfg.Kind == "val" {
 		if len(cfg.Init) > 0 && cfg.Init[0] != "nil" {
@@ -495,7 +522,7 @@ func newReal(cfg Cfg, probe bool) *real {
 	// construction read the (frozen) clock at tick 0; the model starts its counter at `tick`
 	r.clk.frozen = false
 	r.clk.n = cfg.Tick
-	if probe && cfg.Eqv == "" {
+	if probe && effEqv(cfg.Eqv) == "" {
 		ctx, cancel := context.WithCancel(context.Background())
 		r.probeCancel = cancel
 		if r.val != nil {
@@ -1030,4 +1057,74 @@ func (r *real) resume(o Op) string {
 		got = append(got, sb.takeWithin(k, 300*time.Millisecond)...)
 	}
 	return name + "=" + showList(got)
+}
+
+// stallPatience: how long a write may wait on a subscriber that is not receiving before the harness lets
+// that subscriber receive again - longer than the 5 s after which Value.set gives up announcing.
+const stallPatience = 5600 * time.Millisecond
+
+// splitStallW separates a stallw op into its write and the name of the held subscription.
+func splitStallW(o Op) (w Op, rname string) {
+	w = Op{ID: o.ID, Msg: o.Msg}
+	for _, t := range o.Opts {
+		switch {
+		case strings.HasPrefix(t, "w="):
+			w.Op = t[2:]
+		case strings.HasPrefix(t, "rname="):
+			rname = t[6:]
+		default:
+			w.Opts = append(w.Opts, t)
+		}
+	}
+	return
+}
+
+func stallWOp(w Op, rname string) Op {
+	o := Op{Op: "stallw", ID: w.ID, Msg: w.Msg, Opts: append([]string(nil), w.Opts...)}
+	o.Opts = append(o.Opts, "w="+w.Op, "rname="+rname)
+	return o
+}
+
+// stallW: a Collection write is made while the forwarder of the held subscription `rname` is full: its
+// Send has to wait at that listener. The write runs in its own goroutine; the held consumer starts
+// receiving again when the write has returned or after stallPatience, whichever is first (on the
+// unchanged code a Collection write has no send deadline: it is still waiting then, and completes for
+// every listener once the consumer receives). Answer: "<what the resumed consumer was owed> || <the
+// write's answer and everybody's deliveries>".
+func (r *real) stallW(o Op) (string, string) {
+	w, rname := splitStallW(o)
+	if _, h := r.held[rname]; !h || r.coll == nil {
+		return "!no-such-subscription", ""
+	}
+	type res struct {
+		a     string
+		sends int
+	}
+	done := make(chan res, 1)
+	go func() {
+		a, sends := r.runWrite(w)
+		done <- res{a, sends}
+	}()
+	var wr *res
+	select {
+	case x := <-done:
+		wr = &x
+	case <-time.After(stallPatience):
+	}
+	first := r.resume(Op{Op: "resume", Opts: []string{"name=" + rname}})
+	if wr == nil {
+		select {
+		case x := <-done:
+			wr = &x
+		case <-time.After(4 * waitBound):
+			return first + " || !write-timeout", ""
+		}
+	}
+	if strings.HasPrefix(wr.a, "panic:") || strings.HasPrefix(wr.a, "!") {
+		return first + " || " + wr.a, ""
+	}
+	r.partial = wr.sends > 0 && part(wr.a, "err") != "-"
+	ans := fmt.Sprintf("%s || val=%s err=%s | %s", first, part(wr.a, "val"), part(wr.a, "err"), r.deliveries(wr.sends))
+	r.partial = false
+	return ans, part(wr.a, "ids")
 }
